@@ -49,102 +49,85 @@ def fckernel_pre(text):
 
 
 def situations(text):
-    """Counts over all cases of `text` (raw client output):
-       deactivated_pending : compact_list stored `inactive` into a record whose nRequest was an operation id at that moment
-       republish_under_lock: the lock holder read its own nState != active right after taking the lock and published again
-       republish_in_wait   : a waiting owner read nState != active and published again
-       passive_to_combiner : a thread whose first try_lock failed later took the lock with its request still pending
-       passive_got_lock_but_served : … took the lock, found req_Response, unlocked
-       empty_pass          : a combining pass that applied nothing
+    """Counts over all cases of `text` (raw client output) of the situations the tie exercises:
+       deactivated_pending  : compact_list stored `inactive` into a record whose nRequest was an operation id at that moment
+       republish_under_lock : the thread that has just taken the lock read its own nState != active and published again
+       republish_in_wait    : a waiting owner (its try_lock had failed) read nState != active and published again
+       republish_at_acquire : acquire_record found the record inactive and published again
+       passive_to_combiner  : a thread whose try_lock had failed took the lock later, its request still pending: combiner
+       passive_lock_served  : ... took the lock, found req_Response, gave the lock back
+       empty_pass           : a combining pass that applied nothing
        link_cas_failed / unlink_cas_failed : a failed CAS on head.next in publish / on a pNext in compact_list
-       served_by_other     : an operation whose request was executed by another thread
-       cases / ops         : totals"""
-    c = {k: 0 for k in ("cases", "ops", "deactivated_pending", "republish_under_lock", "republish_in_wait", "passive_to_combiner",
-                        "passive_got_lock_but_served", "empty_pass", "link_cas_failed", "unlink_cas_failed", "served_by_other",
-                        "combining_sessions", "compactions")}
+       served_by_other      : fc_apply of a request by a thread other than its owner
+       combining_sessions / passes / compactions / cases / ops : totals"""
+    keys = ("cases", "ops", "combining_sessions", "passes", "empty_pass", "compactions", "deactivated_pending",
+            "republish_under_lock", "republish_in_wait", "republish_at_acquire", "passive_to_combiner", "passive_lock_served",
+            "link_cas_failed", "unlink_cas_failed", "served_by_other")
+    c = {k: 0 for k in keys}
     for cid, block in vlib.split_cases(text):
         c["cases"] += 1
-        req = {}            # record -> last value stored in .req
-        st = {}             # tid -> dict of per-operation flags
+        req = {}            # record -> last value stored into its .req
+        st = {}             # tid -> state of its current operation
         for l in block.split("\n"):
             w = l.split()
             if len(w) < 3 or w[0] != "T":
                 continue
             t = w[1]
-            s = st.setdefault(t, {"failed_lock": False, "holds": False, "just_locked": False, "in_pass": False, "applied": 0, "waiting_state": False})
+            s = st.setdefault(t, dict(failed=False, holds=False, just=False, in_pass=False, applied=0, prev=None))
             if w[2] == "CALL":
                 c["ops"] += 1
-                s.update(failed_lock=False, holds=False, just_locked=False, in_pass=False, waiting_state=False)
+                s.update(failed=False, holds=False, just=False, in_pass=False, applied=0, prev=None)
                 continue
             if w[2] != "A" or len(w) < 5:
                 continue
             kind, loc = w[3], w[4]
+            v = w[5] if len(w) > 5 else ""
             own = "r%s" % t
+            prev, s["prev"] = s["prev"], (kind, loc)
             if kind == "st" and loc.endswith(".req"):
-                req[loc[:-4]] = w[5]
+                req[loc[:-4]] = v
             if kind == "xchg" and loc == "lock":
-                if w[5] == "1":
-                    s["failed_lock"] = True
+                if v == "1":
+                    s["failed"] = True
                 else:
-                    s["holds"] = True
-                    s["just_locked"] = True
-                    s["after_failed"] = s["failed_lock"]
+                    s["holds"], s["just"] = True, True
                 continue
-            if s["just_locked"]:
-                # first event after a successful try_lock
-                if kind == "ld" and loc == own + ".req":          # passive thread: re-check of its request
-                    if w[5] == "1":
-                        c["passive_got_lock_but_served"] += 1
-                        s["just_locked"] = False
-                    else:
-                        c["passive_to_combiner"] += 1
+            if s["just"]:
+                if kind == "ld" and loc == own + ".req":            # wait_for_combining re-checks the request under the lock
+                    c["passive_lock_served" if v == "1" else "passive_to_combiner"] += 1
+                    if v == "1":
+                        s["just"] = False
                     continue
-                if kind == "ld" and loc == own + ".state":
-                    if w[5] != "1":
-                        c["republish_under_lock"] += 1
-                    s["just_locked"] = False
-                    continue
-                s["just_locked"] = False
-            if kind == "ld" and loc == own + ".state" and not s["holds"] and s["failed_lock"] and w[5] != "1":
-                c["republish_in_wait"] += 1
+                s["just"] = False
+                if kind == "ld" and loc == own + ".state" and v != "1":
+                    c["republish_under_lock"] += 1
+            elif kind == "ld" and loc == own + ".state" and not s["holds"] and v != "1":
+                c["republish_in_wait" if s["failed"] else "republish_at_acquire"] += 1
             if kind == "add" and loc == "m_nCount":
                 c["combining_sessions"] += 1
-                s["in_pass"] = False
             if kind == "ld" and loc == "head.state":
-                if s["in_pass"] and s["applied"] == 0:
-                    c["empty_pass"] += 1
-                s["in_pass"] = True
-                s["applied"] = 0
+                c["passes"] += 1
+                s["in_pass"], s["applied"] = True, 0
             if kind == "exec":
                 s["applied"] += 1
                 if loc.split(".")[0] != own:
                     c["served_by_other"] += 1
-            if kind == "ld" and loc == "head.next" and s["holds"] and s["in_pass"] and False:
-                pass
-            if kind == "ld" and loc.endswith(".next") and s["holds"] and s["in_pass"] and w[5] == "null":
-                # end of a pass
+            if kind == "ld" and loc.endswith(".next") and v == "null" and s["in_pass"]:
+                s["in_pass"] = False
                 if s["applied"] == 0:
                     c["empty_pass"] += 1
-                s["in_pass"] = False
             if kind == "ld" and loc == "head.nexta":
                 c["compactions"] += 1
-            if kind == "st" and loc.endswith(".state") and w[5] == "0":
-                if req.get(loc[:-6]) == "2":
-                    c["deactivated_pending"] += 1
-            if kind == "cas-" and loc == "head.next" and not s["holds"]:
-                c["link_cas_failed"] += 1
-            elif kind == "cas-" and loc.endswith(".next"):
-                if s["holds"] and not _in_publish(s):
-                    c["unlink_cas_failed"] += 1
-                else:
+            if kind == "st" and loc.endswith(".state") and v == "0" and req.get(loc[:-6]) == "2":
+                c["deactivated_pending"] += 1
+            if kind == "cas-":
+                if prev and prev[0] == "st":
                     c["link_cas_failed"] += 1
+                else:
+                    c["unlink_cas_failed"] += 1
             if kind == "st" and loc == "lock":
                 s["holds"] = False
     return c
-
-
-def _in_publish(s):
-    return False
 
 
 if __name__ == "__main__":
